@@ -25,7 +25,6 @@ import (
 	sdk "github.com/cosmos/cosmos-sdk/types"
 	"github.com/cosmos/cosmos-sdk/types/tx/signing"
 	authsign "github.com/cosmos/cosmos-sdk/x/auth/signing"
-	govv1 "github.com/cosmos/cosmos-sdk/x/gov/types/v1"
 	"github.com/cosmos/gogoproto/proto"
 
 	"cosmossdk.io/math"
@@ -47,12 +46,29 @@ type advMut struct {
 	K int `json:"k"` // which adversarial value of the field's kind
 }
 
+// advSub is a further message of the same transaction (or of the same governance proposal).
+type advSub struct {
+	T int      `json:"t"`
+	S []int    `json:"s,omitempty"`
+	M []advMut `json:"m,omitempty"`
+}
+
 type advTx struct {
 	T int      `json:"t"`           // index into msgTypes
 	S []int    `json:"s,omitempty"` // late-bound selectors of the template
 	M []advMut `json:"m,omitempty"` // mutations (empty = the valid template)
 	W bool     `json:"w,omitempty"` // signed by somebody else than the message names
 	B bool     `json:"b,omitempty"` // burst: one tx per eligible member / validator (DKG rounds, signatures, reports, prices)
+	// X: further messages in the SAME transaction (multi-message tx, all declared signers sign; executed atomically: a
+	// failing later message rolls the earlier ones back). For an authority-only first message without E the messages
+	// form ONE governance proposal (executed atomically by gov's end blocker).
+	X []advSub `json:"x,omitempty"`
+	// E: authz wrapping of the message(s): 0 none, 1 MsgExec by the agent (holder of the grants), 2 MsgExec by an account
+	// nobody granted anything, 3 nested MsgExec (agent2 executes the agent's MsgExec), 4 MsgExec by the message's own signer
+	E int `json:"e,omitempty"`
+	// G: 1 = the op is a MsgGrant (generic authorization for message type T, granter = the template's signer, grantee =
+	// agent; M mutates the MsgGrant), 2 = MsgRevoke of the same
+	G int `json:"g,omitempty"`
 
 	maint bool // (not part of the case) inserted by a block's Maint flag
 }
@@ -63,6 +79,8 @@ func (t advTx) sel(i int) int {
 	}
 	return 0
 }
+
+func (x advSub) asTx() advTx { return advTx{T: x.T, S: x.S, M: x.M} }
 
 type advBlock struct {
 	Dt    int     `json:"dt"`
@@ -75,13 +93,14 @@ type advCase struct {
 	LastInactive    bool       `json:"last_inactive,omitempty"`    // the last validator is not oracle-activated in set-up
 	SecondGroup     bool       `json:"second_group,omitempty"`     // a second ACTIVE genesis group (target of forced transitions)
 	SetupTransition bool       `json:"setup_transition,omitempty"` // a group transition (DKG) is proposed in the first block
+	Grants          bool       `json:"grants,omitempty"`           // set-up: every acting account grants the agent generic authorizations for all band Msg types
 	Cfg             []int      `json:"cfg"`                        // parameter presets (see buildConfig)
 	Blocks          []advBlock `json:"blocks"`
 }
 
 const nCfg = 18
 
-// regions the generator keeps away from (signatures of findings already reported), VERIF_C02ADV_AVOID=a,b
+// regions the histories are kept away from on request (empty by default), VERIF_C02ADV_AVOID=a,b
 var avoid = func() map[string]bool {
 	m := map[string]bool{}
 	for _, s := range strings.Split(os.Getenv("VERIF_C02ADV_AVOID"), ",") {
@@ -94,7 +113,7 @@ var avoid = func() map[string]bool {
 
 func genAdv(rt *rapid.T) advCase {
 	c := advCase{NVals: gen.Range(rt, "nvals", 2, 4), LastInactive: gen.Chance(rt, "lastinactive", 1, 3),
-		SecondGroup: gen.Chance(rt, "group2", 1, 2), SetupTransition: gen.Chance(rt, "transition", 1, 2)}
+		SecondGroup: gen.Chance(rt, "group2", 1, 2), SetupTransition: gen.Chance(rt, "transition", 1, 2), Grants: gen.Chance(rt, "grants", 2, 3)}
 	for i := 0; i < nCfg; i++ {
 		c.Cfg = append(c.Cfg, gen.Uniform(rt, "cfg", 60))
 	}
@@ -115,6 +134,61 @@ func genAdv(rt *rapid.T) advCase {
 				}
 			}
 			t.W = gen.Chance(rt, "wrongsigner", 1, 40)
+			genMuts := func() []advMut {
+				var ms []advMut
+				if gen.Chance(rt, "submutate", 1, 3) {
+					for j := gen.Pick(rt, "subnmut", 6, 3) + 1; j > 0; j-- {
+						ms = append(ms, advMut{P: gen.Uniform(rt, "path", 1<<10), K: gen.Uniform(rt, "kind", 1<<12)})
+					}
+				}
+				return ms
+			}
+			switch gen.Pick(rt, "shape", 60, 14, 12, 6, 5, 3) {
+			case 1: // multi-message tx / multi-message proposal: 1-3 further messages, preferably of other modules
+				mod := moduleIndex(msgTypes[t.T].module)
+				for j := gen.Range(rt, "nsub", 1, 3); j > 0; j-- {
+					var sub advSub
+					switch {
+					case msgTypes[t.T].gov && !gen.Chance(rt, "propforeign", 1, 8):
+						sub.T = govTypes[gen.Uniform(rt, "subgov", len(govTypes))]
+					case gen.Chance(rt, "samemodule", 1, 4):
+						sub.T = plainTypes[gen.Uniform(rt, "subtype", len(plainTypes))]
+					default:
+						mod = (mod + 1 + gen.Uniform(rt, "submod", len(moduleNames)-1)) % len(moduleNames)
+						ts := typesOfModule[mod]
+						if !msgTypes[t.T].gov && !gen.Chance(rt, "authorityintx", 1, 12) {
+							// (an authority-only message in a plain tx cannot be signed: the tx is refused in the ante handler)
+							if ts = plainTypesOfModule[mod]; len(ts) == 0 {
+								ts = plainTypes
+							}
+						}
+						sub.T = ts[gen.Uniform(rt, "subtype", len(ts))]
+					}
+					for k := 0; k < 3; k++ {
+						sub.S = append(sub.S, gen.Uniform(rt, "sel", 1<<12))
+					}
+					sub.M = genMuts()
+					t.X = append(t.X, sub)
+				}
+				t.B = false
+			case 2: // through authz
+				t.E = gen.OneOf(rt, "exec", 1, 1, 1, 1, 2, 3, 3, 4)
+			case 3: // several messages in one MsgExec
+				t.E = gen.OneOf(rt, "exec", 1, 1, 1, 2, 3, 4)
+				for j := gen.Range(rt, "nsub", 1, 2); j > 0; j-- {
+					sub := advSub{T: gen.Uniform(rt, "subtype", len(msgTypes))}
+					for k := 0; k < 3; k++ {
+						sub.S = append(sub.S, gen.Uniform(rt, "sel", 1<<12))
+					}
+					sub.M = genMuts()
+					t.X = append(t.X, sub)
+				}
+				t.B = false
+			case 4:
+				t.G = 1
+			case 5:
+				t.G = 2
+			}
 			blk.Txs = append(blk.Txs, t)
 		}
 		c.Blocks = append(c.Blocks, blk)
@@ -124,19 +198,28 @@ func genAdv(rt *rapid.T) advCase {
 
 // ---- execution -----------------------------------------------------------------------------------------------
 
-type txMeta struct {
-	ti       int    // message type index (-1: governance vote)
-	url      string // actual message type of the (first) message
+// comp is one message of a transaction: built from the template of its type, then mutated.
+type comp struct {
+	ti       int
+	url      string // actual type of the message
+	msg      sdk.Msg
+	signer   *sim.Account // the signer the template intended
 	mutated  bool
 	kinds    []string // kinds of the mutated fields
 	descs    []string
-	wrong    bool
 	vbFail   bool
-	gov      bool
-	pid      uint64
-	msg      sdk.Msg
 	fallback bool
-	maint    bool
+}
+
+func (c *comp) name() string { return shortName(msgTypes[c.ti].url) }
+
+type txMeta struct {
+	kind  string // single | maint | vote | multi | exec | prop | grant | revoke
+	comps []*comp
+	wrong bool
+	pid   uint64 // prop, vote
+	exec  int    // exec: the E of the op
+	desc  string
 }
 
 func reflectParams(m proto.Message) reflect.Value {
@@ -156,6 +239,9 @@ func (w *world) safeTemplate(ti int, t advTx) (out []built) {
 	defer func() {
 		if r := recover(); r != nil {
 			w.v.Count("template_panic", 1)
+			if os.Getenv("VERIF_C02ADV_DEBUG") != "" {
+				fmt.Printf("TEMPLATE-PANIC %s: %v\n", msgTypes[ti].url, r)
+			}
 			out = nil
 		}
 	}()
@@ -211,38 +297,47 @@ func (w *world) declaredAddr(m sdk.Msg) (addr string, parses bool) {
 	return sdk.AccAddress(signers[0]).String(), true
 }
 
-// sign builds a SIGN_MODE_DIRECT transaction. anteOK says whether the ante handler is expected to let it through
-// (only then the signer's sequence advances).
-func (w *world) sign(signer *sim.Account, anteOK bool, msgs ...sdk.Msg) (bz []byte, err error) {
+// sign builds a SIGN_MODE_DIRECT transaction signed by all the given accounts (in the order the messages name them).
+// anteOK says whether the ante handler is expected to let it through: only then the signers' sequences advance.
+// Everything the ante handler can refuse is accounted for here: ValidateBasic (the caller), an undecodable tx, a signer
+// set that differs from the declared one (the caller), a fee payer that cannot pay.
+func (w *world) sign(signers []*sim.Account, anteOK bool, msgs ...sdk.Msg) (bz []byte, err error) {
 	defer func() {
 		if r := recover(); r != nil {
 			bz, err = nil, fmt.Errorf("tx build panic: %v", r)
 		}
 	}()
+	if len(signers) == 0 {
+		return nil, fmt.Errorf("no signer")
+	}
 	ch := w.ch
 	txCfg := ch.App.GetTxConfig()
 	b := txCfg.NewTxBuilder()
 	if err := b.SetMsgs(msgs...); err != nil {
 		return nil, err
 	}
-	b.SetGasLimit(80_000_000)
+	b.SetGasLimit(120_000_000)
 	b.SetFeeAmount(uband(2500))
-	seq := signer.Seq
-	sig := signing.SignatureV2{PubKey: signer.Priv.PubKey(), Data: &signing.SingleSignatureData{SignMode: signing.SignMode_SIGN_MODE_DIRECT}, Sequence: seq}
-	if err := b.SetSignatures(sig); err != nil {
+	sigs := make([]signing.SignatureV2, len(signers))
+	for i, a := range signers {
+		sigs[i] = signing.SignatureV2{PubKey: a.Priv.PubKey(), Data: &signing.SingleSignatureData{SignMode: signing.SignMode_SIGN_MODE_DIRECT}, Sequence: a.Seq}
+	}
+	if err := b.SetSignatures(sigs...); err != nil {
 		return nil, err
 	}
-	sd := authsign.SignerData{Address: signer.Addr.String(), ChainID: ch.Cfg.ChainID, AccountNumber: signer.Num, Sequence: seq, PubKey: signer.Priv.PubKey()}
-	sb, err := authsign.GetSignBytesAdapter(context.Background(), txCfg.SignModeHandler(), signing.SignMode_SIGN_MODE_DIRECT, sd, b.GetTx())
-	if err != nil {
-		return nil, err
+	for i, a := range signers {
+		sd := authsign.SignerData{Address: a.Addr.String(), ChainID: ch.Cfg.ChainID, AccountNumber: a.Num, Sequence: a.Seq, PubKey: a.Priv.PubKey()}
+		sb, err := authsign.GetSignBytesAdapter(context.Background(), txCfg.SignModeHandler(), signing.SignMode_SIGN_MODE_DIRECT, sd, b.GetTx())
+		if err != nil {
+			return nil, err
+		}
+		sg, err := a.Priv.Sign(sb)
+		if err != nil {
+			return nil, err
+		}
+		sigs[i].Data.(*signing.SingleSignatureData).Signature = sg
 	}
-	s, err := signer.Priv.Sign(sb)
-	if err != nil {
-		return nil, err
-	}
-	sig.Data.(*signing.SingleSignatureData).Signature = s
-	if err := b.SetSignatures(sig); err != nil {
+	if err := b.SetSignatures(sigs...); err != nil {
 		return nil, err
 	}
 	out, err := txCfg.TxEncoder()(b.GetTx())
@@ -251,8 +346,17 @@ func (w *world) sign(signer *sim.Account, anteOK bool, msgs ...sdk.Msg) (bz []by
 	}
 	if anteOK {
 		// a transaction the node cannot decode (unregistered Any, malformed signer field ...) never reaches the ante handler
-		if _, derr := txCfg.TxDecoder()(out); derr == nil {
-			signer.Seq++
+		if _, derr := txCfg.TxDecoder()(out); derr != nil {
+			anteOK = false
+		}
+	}
+	if anteOK && ch.App.BankKeeper.SpendableCoins(w.ctx, signers[0].Addr).AmountOf("uband").LT(math.NewInt(1_000_000_000)) {
+		anteOK = false // (never observed: every account starts with 10^12 uband) the fee payer may be unable to pay
+		w.v.Count("fee_payer_poor", 1)
+	}
+	if anteOK {
+		for _, a := range signers {
+			a.Seq++
 		}
 	}
 	return out, nil
@@ -309,7 +413,7 @@ func runAdv(c advCase) *pbt.Verdict {
 		v.Failf("harness", "malformed case")
 		return v
 	}
-	w := &world{c: c, v: v, privs: map[uint64]map[string]tss.Scalar{}, dkgs: map[uint64]map[string]*dkgMember{}, props: map[uint64]int{}, propMsgs: map[uint64]sdk.Msg{}}
+	w := &world{c: c, v: v, privs: map[uint64]map[string]tss.Scalar{}, dkgs: map[uint64]map[string]*dkgMember{}, props: map[uint64][]*comp{}}
 	cfg := w.buildConfig()
 	ch, err := sim.New(cfg, 0)
 	if err != nil {
@@ -328,13 +432,15 @@ func runAdv(c advCase) *pbt.Verdict {
 	okModules := map[string]bool{}
 	mutKindsOK := map[string]bool{}
 	endWork := map[string]bool{}
+	shapes := map[string]bool{}
+	debug := os.Getenv("VERIF_C02ADV_DEBUG") != ""
 	for bi, blk := range c.Blocks {
 		dt := time.Duration(blk.Dt) * time.Second
 		w.beginBlock(dt)
 		var txs [][]byte
 		var metas []*txMeta
-		addTx := func(signer *sim.Account, anteOK bool, meta *txMeta, msgs ...sdk.Msg) {
-			bz, err := w.sign(signer, anteOK, msgs...)
+		add := func(signers []*sim.Account, anteOK bool, meta *txMeta, msgs ...sdk.Msg) {
+			bz, err := w.sign(signers, anteOK, msgs...)
 			if err != nil {
 				v.Count("tx_unbuildable", 1)
 				return
@@ -351,194 +457,223 @@ func runAdv(c advCase) *pbt.Verdict {
 			ops = append(pre, ops...)
 		}
 		for _, t := range ops {
-			if t.T < 0 || t.T >= len(msgTypes) {
-				continue
-			}
-			mt := msgTypes[t.T]
-			tmpl := w.safeTemplate(t.T, t)
-			if len(tmpl) == 0 {
-				v.Count("inapplicable/"+shortName(mt.url), 1)
-				continue
-			}
-			for _, bt := range tmpl {
-				if t.maint && bt.fallback {
-					continue
-				}
-				msg := bt.msg
-				meta := &txMeta{maint: t.maint, ti: t.T, url: sdk.MsgTypeURL(msg), gov: mt.gov, fallback: bt.fallback}
-				for _, mu := range t.M {
-					pm, ok := msg.(proto.Message)
-					if !ok {
-						break
-					}
-					var prev proto.Message
-					if mt.gov {
-						prev = cloneMsg(pm) // (gov-routed messages carry no Any)
-					}
-					kind, desc := safeMutate(w.env, pm, mu.P, mu.K)
-					if desc == "" {
-						continue
-					}
-					if mt.gov && prev != nil && w.inAvoidedRegion(msg) {
-						msg = prev.(sdk.Msg)
-						v.Count("avoided_known_region", 1)
-						continue
-					}
-					if mt.gov && prev != nil && safeVB(msg) != nil && (mu.K/5)%8 != 0 {
-						// parameter values the module's own validation refuses are outside the domain (1 in 8 is sent anyway)
-						msg = prev.(sdk.Msg)
-						v.Count("param_mutation_refused_by_validate", 1)
-						continue
-					}
-					meta.mutated = true
-					meta.kinds = append(meta.kinds, kind)
-					meta.descs = append(meta.descs, desc)
-				}
-				meta.vbFail = safeVB(msg) != nil
-				if mt.gov {
-					prop, perr := govv1.NewMsgSubmitProposal([]sdk.Msg{msg}, uband(10), ch.Vals[0].Addr.String(), "", "t", "s", false)
-					if perr != nil {
-						v.Count("tx_unbuildable", 1)
-						continue
-					}
-					pid, perr := ch.App.GovKeeper.ProposalID.Peek(w.ctx)
-					if perr != nil {
-						pid = 1
-					}
-					pid += w.propsInBlock
-					if auth, parses := w.declaredAddr(msg); !meta.vbFail && parses && auth == sim.GovAuthority() {
-						w.propsInBlock++ // (a submission gov is going to refuse does not consume a proposal id)
-					}
-					meta.pid = pid
-					meta.msg = msg
-					// gov runs ValidateBasic of the inner message when the proposal is submitted (in the msg server, after ante)
-					addTx(ch.Vals[0], true, meta, prop)
-					for _, val := range ch.Vals {
-						addTx(val, true, &txMeta{ti: -1, pid: pid}, govv1.NewMsgVote(val.Addr, pid, govv1.OptionYes, ""))
-					}
-					continue
-				}
-				signer := bt.signer
-				declared, parses := w.declaredSigner(msg)
-				if parses && declared != nil {
-					signer = declared // a mutated signer field naming another account we control: that account signs
-				}
-				anteOK := !meta.vbFail && parses && declared != nil
-				if t.W {
-					meta.wrong = true
-					anteOK = false
-					signer = pickOf([]*sim.Account{w.u[uOut], w.ghost, w.u[9]}, t.sel(2))
-					if declared != nil && signer.Addr.Equals(declared.Addr) {
-						signer = w.u[9]
-					}
-				}
-				if signer == nil {
-					signer = w.u[uOut]
-				}
-				addTx(signer, anteOK, meta, msg)
-			}
+			w.emit(t, add)
 		}
 		height := ch.Height + 1
 		res, err, hung := w.blockWithWatchdog(txs, dt)
 		if hung {
 			w.hung = true
 			sig, what := w.classifyHang()
-			v.Failf(sig, "history block %d (height %d, dt %ds): FinalizeBlock did not return within %s (the node cannot produce the block); %s; messages of the block: %s",
+			v.Failf(sig, "history block %d (height %d, dt %ds): FinalizeBlock did not return within %s (the node cannot produce the block); %s; transactions of the block: %s",
 				bi, height, blk.Dt, hangLimit, what, strings.Join(msgList(metas), ", "))
 			return v
 		}
 		if err != nil {
-			var list []string
-			for _, m := range metas {
-				if m.ti < 0 {
-					continue
-				}
-				list = append(list, shortName(m.url)+"{"+strings.Join(m.descs, ";")+"}")
-			}
 			sig, what := w.classifyFailure(err)
 			if os.Getenv("VERIF_C02ADV_TRACE") != "" {
 				fmt.Printf("TRACE block %d: %v\n%s\n", bi, err, traceFinalize(ch, txs, dt))
 			}
-			v.Failf(sig, "history block %d (height %d, dt %ds) could not be finalized: %v; %s; messages of the block: %s", bi, ch.Height+1, blk.Dt, err, what, strings.Join(list, ", "))
+			v.Failf(sig, "history block %d (height %d, dt %ds) could not be finalized: %v; %s; transactions of the block: %s", bi, ch.Height+1, blk.Dt, err, what, strings.Join(msgList(metas), ", "))
 			return v
 		}
 		// results
 		for i, tr := range res.Resp.TxResults {
 			m := metas[i]
-			if m.ti < 0 {
-				if tr.Code != 0 {
+			ok := tr.Code == 0
+			if strings.Contains(tr.Log, "account sequence mismatch") {
+				// the harness mispredicted what the ante handler does with an earlier tx of the same signer: the history is not the
+				// one that was meant, the case is inconclusive (never a violation)
+				v.Failf("harness", "block %d tx %d (%s): %s", bi, i, describe(m), tr.Log)
+				return v
+			}
+			if m.kind == "vote" {
+				if !ok {
 					v.Count("gov_vote_failed", 1)
-					if os.Getenv("VERIF_C02ADV_DEBUG") != "" {
-						fmt.Printf("VOTE-FAIL %s\n", tr.Log)
-					}
 				}
 				continue
 			}
-			name := shortName(msgTypes[m.ti].url)
-			ok := tr.Code == 0
-			if m.maint {
+			if m.kind == "maint" {
 				if ok {
-					okModules[moduleOfURL(m.url)] = true
+					okModules[moduleOfURL(m.comps[0].url)] = true
 					v.Count("maint_ok", 1)
 				} else {
 					v.Count("maint_fail", 1)
 				}
 				continue
 			}
-			switch {
-			case m.wrong && ok:
-				v.Count("wrong_signer_accepted/"+name, 1) // (never expected: the ante handler verifies the signature)
-			case m.wrong:
-				v.Count("wrong_signer_refused", 1)
-			case ok && !m.mutated:
-				v.Count("tmpl_ok/"+name, 1)
-			case !ok && !m.mutated && m.fallback:
-				v.Count("tmpl_no_target/"+name, 1)
-			case !ok && !m.mutated:
-				v.Count("tmpl_fail/"+name, 1)
-				if os.Getenv("VERIF_C02ADV_DEBUG") != "" {
-					fmt.Printf("TMPL-FAIL %s: %s\n", name, tr.Log)
+			for _, c := range m.comps {
+				for _, k := range c.kinds {
+					v.Class("mut:" + k)
+					if ok {
+						mutKindsOK[k] = true
+					}
 				}
-			case ok:
-				v.Count("mut_ok/"+name, 1)
-			default:
-				v.Count("mut_fail/"+name, 1)
 			}
-			if m.gov {
+			if m.wrong {
 				if ok {
-					w.props[m.pid] = m.ti
-					w.propMsgs[m.pid] = m.msg
+					v.Count("wrong_signer_accepted/"+m.comps[0].name(), 1) // (never expected: the ante handler verifies the signatures)
+				} else {
+					v.Count("wrong_signer_refused", 1)
 				}
-				continue // the module message itself runs in gov's end blocker
+				continue
 			}
-			if ok {
-				okModules[moduleOfURL(m.url)] = true
-				for _, k := range m.kinds {
-					mutKindsOK[k] = true
+			success := func() {
+				for _, c := range m.comps {
+					okModules[moduleOfURL(c.url)] = true
 				}
 			}
-			for _, k := range m.kinds {
-				v.Class("mut:" + k)
+			switch m.kind {
+			case "single", "prop":
+				if m.kind == "prop" && len(m.comps) > 1 {
+					shapes["gov-multi-msg-proposal"] = true
+					if ok {
+						v.Count("gov_multi_submitted", 1)
+						w.props[m.pid] = m.comps
+					} else {
+						v.Count("gov_multi_submit_refused", 1)
+					}
+					break
+				}
+				c := m.comps[0]
+				name := c.name()
+				switch {
+				case ok && !c.mutated:
+					v.Count("tmpl_ok/"+name, 1)
+				case !ok && !c.mutated && c.fallback:
+					v.Count("tmpl_no_target/"+name, 1)
+				case !ok && !c.mutated:
+					v.Count("tmpl_fail/"+name, 1)
+					if debug {
+						fmt.Printf("TMPL-FAIL %s: %s\n", name, tr.Log)
+					}
+				case ok:
+					v.Count("mut_ok/"+name, 1)
+				default:
+					v.Count("mut_fail/"+name, 1)
+				}
+				if m.kind == "prop" {
+					if ok {
+						w.props[m.pid] = m.comps // the module message itself runs in gov's end blocker
+					}
+				} else if ok {
+					success()
+				}
+			case "multi":
+				shapes["multi-msg-tx"] = true
+				idx := failedIndex(tr.Log)
+				switch {
+				case ok:
+					shapes["multi-msg-tx-ok"] = true
+					v.Count("multi_ok", 1)
+					for _, c := range m.comps {
+						v.Count("multi_ok/"+c.name(), 1)
+					}
+					success()
+				case idx < 0:
+					v.Count("multi_refused_in_ante", 1)
+					if debug {
+						fmt.Printf("MULTI-ANTE %s: %s\n", describe(m), tr.Log)
+					}
+				default:
+					if idx >= 1 {
+						shapes["multi-msg-tx-rolled-back"] = true // earlier messages had executed
+						v.Count("multi_rolled_back", 1)
+					} else {
+						v.Count("multi_failed_at_first", 1)
+					}
+					if idx < len(m.comps) {
+						v.Count("multi_fail_at/"+m.comps[idx].name(), 1)
+					}
+					if debug {
+						fmt.Printf("MULTI-FAIL %s: %s\n", describe(m), tr.Log)
+					}
+				}
+			case "exec":
+				shape := map[int]string{1: "authz-exec", 2: "authz-exec-without-grant", 3: "authz-exec-nested", 4: "authz-exec-by-signer"}[m.exec]
+				authority := false
+				for _, c := range m.comps {
+					if msgTypes[c.ti].gov {
+						authority = true
+					}
+				}
+				if authority {
+					shape += "-authority-msg"
+				}
+				if len(m.comps) > 1 {
+					shape += "-multi"
+				}
+				switch {
+				case ok:
+					shapes[shape+"-ok"] = true
+					shapes["authz-exec-ok"] = true
+					v.Count("exec_ok", 1)
+					for _, c := range m.comps {
+						v.Count("exec_ok/"+c.name(), 1)
+					}
+					success()
+				case strings.Contains(tr.Log, "authorization not found"):
+					shapes[shape+"-refused"] = true
+					shapes["authz-exec-refused"] = true
+					v.Count("exec_refused", 1)
+				case failedIndex(tr.Log) < 0:
+					v.Count("exec_refused_in_ante", 1)
+				default:
+					shapes[shape+"-failed"] = true
+					shapes["authz-exec-failed"] = true // authorised, but a message failed: everything rolled back
+					v.Count("exec_failed", 1)
+					for _, c := range m.comps {
+						v.Count("exec_failed/"+c.name(), 1)
+					}
+					if debug {
+						fmt.Printf("EXEC-FAIL %s: %s\n", describe(m), tr.Log)
+					}
+				}
+			case "grant", "revoke":
+				shapes["authz-"+m.kind] = true
+				if ok {
+					v.Count("authz_"+m.kind+"_ok", 1)
+				} else {
+					v.Count("authz_"+m.kind+"_fail", 1)
+					if debug && !m.comps[0].mutated {
+						fmt.Printf("GRANT-FAIL %s: %s\n", describe(m), tr.Log)
+					}
+				}
 			}
 		}
 		for _, e := range res.Resp.Events {
-			switch e.Type {
-			case "active_proposal":
+			if e.Type == "active_proposal" {
 				var pid uint64
 				fmt.Sscan(sim.Attr(e, "proposal_id"), &pid)
-				if ti, found := w.props[pid]; found {
-					name := shortName(msgTypes[ti].url)
-					if sim.Attr(e, "proposal_result") == "proposal_passed" {
-						v.Count("gov_exec_ok/"+name, 1)
-						okModules[msgTypes[ti].module] = true
+				if cs, found := w.props[pid]; found {
+					passed := sim.Attr(e, "proposal_result") == "proposal_passed"
+					if len(cs) == 1 {
+						name := cs[0].name()
+						if passed {
+							v.Count("gov_exec_ok/"+name, 1)
+						} else {
+							v.Count("gov_exec_fail/"+name, 1)
+							if debug {
+								fmt.Printf("GOV-FAIL %s: %s %s\n", name, sim.Attr(e, "proposal_result"), sim.Attr(e, "proposal_log"))
+							}
+						}
 					} else {
-						v.Count("gov_exec_fail/"+name, 1)
-						if os.Getenv("VERIF_C02ADV_DEBUG") != "" {
-							fmt.Printf("GOV-FAIL %s: %s %s\n", name, sim.Attr(e, "proposal_result"), sim.Attr(e, "proposal_log"))
+						switch mm := rePropMsg.FindStringSubmatch(sim.Attr(e, "proposal_log")); {
+						case passed:
+							shapes["gov-multi-msg-proposal-passed"] = true
+							v.Count("gov_multi_exec_ok", 1)
+						case mm != nil && mm[1] != "0":
+							shapes["gov-multi-msg-proposal-rolled-back"] = true // an earlier message of the proposal had executed
+							v.Count("gov_multi_rolled_back", 1)
+						default:
+							v.Count("gov_multi_exec_fail", 1)
+						}
+					}
+					if passed {
+						for _, c := range cs {
+							okModules[msgTypes[c.ti].module] = true
 						}
 					}
 					delete(w.props, pid)
-					delete(w.propMsgs, pid)
 				}
 			}
 			if wk, ok := endBlockWork[e.Type]; ok {
@@ -562,6 +697,9 @@ func runAdv(c advCase) *pbt.Verdict {
 	for _, k := range sortedBoolKeys(endWork) {
 		v.Class("endblock:" + k)
 	}
+	for _, k := range sortedBoolKeys(shapes) {
+		v.Class(k)
+	}
 	v.Class(fmt.Sprintf("modules-ok=%d", len(mods)))
 	v.Count("blocks", int64(len(c.Blocks)))
 	v.NonTrivial = len(mods) >= 4
@@ -576,7 +714,7 @@ var endBlockWork = map[string]string{
 	"complain_success": "tss-complain-upheld", "complain_failed": "tss-complain-rejected", "deactivate_tunnel": "tunnel-deactivated", "active_proposal": "gov-proposal-ended",
 }
 
-func sortedPids(m map[uint64]sdk.Msg) []uint64 {
+func sortedPids(m map[uint64][]*comp) []uint64 {
 	ks := make([]uint64, 0, len(m))
 	for k := range m {
 		ks = append(ks, k)
@@ -594,8 +732,10 @@ func sortedBoolKeys(m map[string]bool) []string {
 	return ks
 }
 
-// Findings of this stage on the unchanged tree. Each distinct root cause has its own signature so that the search can
-// go on behind it: VERIF_C02ADV_AVOID=<signature,...> keeps the histories out of the corresponding region.
+// Findings of this stage (all repaired by fix: commits in /repo by now). Each distinct root cause keeps its own signature
+// so that a regression is named. Nothing is avoided by default: a region is left out only when its signature is listed
+// in VERIF_C02ADV_AVOID=<signature,...> or recorded as an OPEN finding in known_findings.json (so that the search can go
+// on behind a defect that is not repaired yet).
 const (
 	// bandtss FeePerSigner / tunnel BasePacketFee amounts near 2^256 (accepted by Params.Validate) overflow math.Int in
 	// GetSigningFee / HasEnoughFundToCreatePacket, which the tunnel end blocker calls outside its recovering cache context
@@ -607,7 +747,7 @@ const (
 	// size" the owasm VM allocates (Vec::with_capacity) whenever a script reads its calldata or a report: a value >= 2^63
 	// (or beyond the machine's memory) is a Rust panic / allocation failure across the FFI boundary, which ABORTS the node
 	// process (SIGABRT) inside a MsgRequestData or inside the oracle end blocker. Not recoverable: the stage can only
-	// journal the case; the region is entered only when VERIF_C02ADV_ALLOW_ABORT is set or the finding is not avoided.
+	// journal the case before executing it.
 	sigSpanAbort = "C02/owasm-span-size-abort"
 )
 
@@ -682,10 +822,10 @@ func (w *world) blockWithWatchdog(txs [][]byte, dt time.Duration) (res *sim.Bloc
 func msgList(metas []*txMeta) []string {
 	var list []string
 	for _, m := range metas {
-		if m.ti < 0 {
+		if m.kind == "vote" {
 			continue
 		}
-		list = append(list, shortName(m.url)+"{"+strings.Join(m.descs, ";")+"}")
+		list = append(list, describe(m))
 	}
 	return list
 }
@@ -698,9 +838,11 @@ func (w *world) classifyHang() (sig, what string) {
 	if w.samplingTry > samplingTryLimit || int64(w.samplingTry) < 0 {
 		return sigSamplingHang, fmt.Sprintf("oracle SamplingTryCount=%d", w.samplingTry)
 	}
-	for _, pid := range sortedPids(w.propMsgs) {
-		if mm, ok := w.propMsgs[pid].(*oracletypes.MsgUpdateParams); ok && mm.Params.SamplingTryCount > samplingTryLimit {
-			return sigSamplingHang, fmt.Sprintf("proposal %d sets oracle SamplingTryCount=%d", pid, mm.Params.SamplingTryCount)
+	for _, pid := range sortedPids(w.props) {
+		for _, c := range w.props[pid] {
+			if mm, ok := c.msg.(*oracletypes.MsgUpdateParams); ok && mm.Params.SamplingTryCount > samplingTryLimit {
+				return sigSamplingHang, fmt.Sprintf("proposal %d sets oracle SamplingTryCount=%d", pid, mm.Params.SamplingTryCount)
+			}
 		}
 	}
 	return "C02/finalize-hang", "unclassified"
@@ -716,15 +858,17 @@ func (w *world) classifyFailure(err error) (sig, what string) {
 			return sigFeeOverflow, fmt.Sprintf("bandtss FeePerSigner=%s tunnel BasePacketFee=%s", bp.FeePerSigner, tp.BasePacketFee)
 		}
 		// or a parameter change executed by gov's end blocker in the very block that failed
-		for _, pid := range sortedPids(w.propMsgs) {
-			switch mm := w.propMsgs[pid].(type) {
-			case *bandtsstypes.MsgUpdateParams:
-				if maxIntBits(&mm.Params) > 200 {
-					return sigFeeOverflow, fmt.Sprintf("proposal %d sets bandtss FeePerSigner=%s", pid, mm.Params.FeePerSigner)
-				}
-			case *tunneltypes.MsgUpdateParams:
-				if maxIntBits(&mm.Params) > 200 {
-					return sigFeeOverflow, fmt.Sprintf("proposal %d sets tunnel BasePacketFee=%s MinDeposit=%s", pid, mm.Params.BasePacketFee, mm.Params.MinDeposit)
+		for _, pid := range sortedPids(w.props) {
+			for _, c := range w.props[pid] {
+				switch mm := c.msg.(type) {
+				case *bandtsstypes.MsgUpdateParams:
+					if maxIntBits(&mm.Params) > 200 {
+						return sigFeeOverflow, fmt.Sprintf("proposal %d sets bandtss FeePerSigner=%s", pid, mm.Params.FeePerSigner)
+					}
+				case *tunneltypes.MsgUpdateParams:
+					if maxIntBits(&mm.Params) > 200 {
+						return sigFeeOverflow, fmt.Sprintf("proposal %d sets tunnel BasePacketFee=%s MinDeposit=%s", pid, mm.Params.BasePacketFee, mm.Params.MinDeposit)
+					}
 				}
 			}
 		}
